@@ -28,6 +28,7 @@ type world struct {
 	chainID   string
 	maxBlocks int64
 	maxDur    time.Duration
+	maxBytes  int64 // Evidence.MaxBytes in force after the tip (genesis value or the last on-chain change)
 	sigCache  map[string]bool
 	// number of on-chain changes of the evidence params so far
 	paramChanges int
@@ -41,9 +42,10 @@ func (w *world) advance(plan *lib.HeightPlan) error {
 	}
 	if plan != nil && plan.Params != nil && plan.Params.Evidence != nil {
 		w.maxBlocks, w.maxDur = plan.Params.Evidence.MaxAgeNumBlocks, plan.Params.Evidence.MaxAgeDuration
+		w.maxBytes = plan.Params.Evidence.MaxBytes
 		w.paramChanges++
 	}
-	if got := w.c.State.ConsensusParams.Evidence; got.MaxAgeNumBlocks != w.maxBlocks || got.MaxAgeDuration != w.maxDur {
+	if got := w.c.State.ConsensusParams.Evidence; got.MaxAgeNumBlocks != w.maxBlocks || got.MaxAgeDuration != w.maxDur || got.MaxBytes != w.maxBytes {
 		return fmt.Errorf("VERIF-INFRA: chain state has evidence params %v, harness recorded %d/%s", got, w.maxBlocks, w.maxDur)
 	}
 	return nil
@@ -78,6 +80,8 @@ func (w *world) ageClass(h int64) (expired bool, cls string) {
 	return false, "age:fresh"
 }
 
+var evMaxBytes = []int64{1048576, 1048576, 500, 900, 1600, 3000}
+
 func newWorld(t *rapid.T) *world {
 	n := rapid.IntRange(3, 5).Draw(t, "nvals")
 	keys := make([]int, n)
@@ -89,11 +93,13 @@ func newWorld(t *rapid.T) *world {
 	p := types.DefaultConsensusParams()
 	p.Evidence.MaxAgeNumBlocks = rapid.Int64Range(1, 4).Draw(t, "maxAgeBlocks")
 	p.Evidence.MaxAgeDuration = time.Duration(rapid.SampledFrom([]int{3, 5, 8}).Draw(t, "maxAgeSec")) * time.Second
+	// evidence bytes allowed per block: the 1 MiB default, or so few that the pending evidence does not fit in one block
+	p.Evidence.MaxBytes = rapid.SampledFrom(evMaxBytes).Draw(t, "maxEvidenceBytes")
 	c, err := lib.NewChain(lib.ChainSpec{Keys: keys, Powers: powers, Params: p})
 	if err != nil {
 		t.Fatalf("VERIF-INFRA: NewChain: %v", err)
 	}
-	return &world{c: c, chainID: c.Spec.ChainID, maxBlocks: p.Evidence.MaxAgeNumBlocks, maxDur: p.Evidence.MaxAgeDuration,
+	return &world{c: c, chainID: c.Spec.ChainID, maxBlocks: p.Evidence.MaxAgeNumBlocks, maxDur: p.Evidence.MaxAgeDuration, maxBytes: p.Evidence.MaxBytes,
 		sigCache: map[string]bool{}}
 }
 
@@ -123,7 +129,7 @@ func (w *world) genPlan(t *rapid.T) *lib.HeightPlan {
 		p.Params = &abci.ConsensusParams{Evidence: &tmproto.EvidenceParams{
 			MaxAgeNumBlocks: rapid.Int64Range(1, 6).Draw(t, "newMaxAgeBlocks"),
 			MaxAgeDuration:  time.Duration(rapid.SampledFrom([]int{1, 3, 5, 8, 20}).Draw(t, "newMaxAgeSec")) * time.Second,
-			MaxBytes:        cur.MaxBytes,
+			MaxBytes:        rapid.SampledFrom(append([]int64{cur.MaxBytes, cur.MaxBytes}, evMaxBytes...)).Draw(t, "newMaxEvidenceBytes"),
 		}}
 	}
 	if rapid.IntRange(0, 2).Draw(t, "updcoin") == 0 {
